@@ -59,8 +59,9 @@ ASSUMPTIONS = [
     "an integer/bool mismatch between modes is excused as a float32 threshold tie (counted, not judged) only if "
     "perturbing the float inputs of the reference call by 3e-6 relative also flips it",
     "conditioning triage (only reached when a float leaf exceeds the tolerance above): the reference call is repeated "
-    "twelve times with every float argument -- environment parameters included -- perturbed by 2e-7 or 8e-7 relative (about "
-    "two / eight float32 ulps); a cross-mode difference of at most 30x the largest change these probes cause on that leaf is float32 "
+    "sixteen times with every float argument -- environment parameters included -- perturbed by 2e-7, 8e-7, 3e-6 or 1e-5 "
+    "relative (two to a hundred float32 ulps: batched and unbatched programs round differently *inside* the solver, "
+    "which a two-ulp perturbation of the inputs only partly imitates); a cross-mode difference of at most 30x the largest change these probes cause on that leaf is float32 "
     "rounding amplified by the function's own conditioning (MuJoCo contact solver right after a reset, chaotic "
     "dynamics), counted in ill_conditioned_differences_excused with the worst ratio in the unit notes, not judged",
     "twin comparison of collections: the same triage on the single-environment collection (policy parameters, "
@@ -474,11 +475,11 @@ class _EnvJudge:
             self.viol(f"{fn}-jit-answer-depends-on-call-history", {"fn": fn, "after": "same argument values in rebuilt arrays",
                                                                    "diff": _cmp(want, o0, lambda p, f: (0.0, 0.0), fn)})
             return {}
-        # twelve probes, half at two ulps and half at eight: an iterative solver right after a reset answers a
+        # sixteen probes at 2e-7, 8e-7, 3e-6 and 1e-5 relative: an iterative solver right after a reset answers a
         # rounding-sized perturbation with a *jump* between two branches; three probes were seen to land on the
         # reference's side of such a jump all three times (G1Standing.initial, 1 case in 80)
-        for j in range(12):
-            sc_j = ULP_SCALE if j % 2 == 0 else 4 * ULP_SCALE
+        for j in range(16):
+            sc_j = (ULP_SCALE, 4 * ULP_SCALE, 15 * ULP_SCALE, 50 * ULP_SCALE)[j % 4]  # 2e-7 ... 1e-5 relative
             ps, pa, pns = _perturb_inputs(self.ctx.rng, s, a, ns, scale=sc_j, abs_scale=0.0)
             env_p = _perturb_floats(self.ctx.rng, self.env, sc_j)
             try:
